@@ -1,5 +1,5 @@
 //! Verification hook for property C20 (read-only): the private 256-colour tables as exact f32 bit
-//! patterns, the private `nearest` search, and the private `color_sgr_encode` parameter writer.
+//! patterns and the private `nearest` search.
 
 /// `CUBE` as the compiler sees it (f32 bit patterns).
 pub fn cube_bits() -> Vec<u32> {
